@@ -6,6 +6,8 @@
  *   hist <ops>               one case on the current disk.  ops: comma list over
  *                              V zck_validate_checksums   D zck_validate_data_checksum   F zck_find_valid_chunks
  *                              X zck_reset_failed_chunks   M zck_missing_chunks / zck_failed_chunks (counts only)
+ *                              Q zck_find_matching_chunks(peer, this)  C<i> zck_get_chunk_data(chunk i)  S<i> ..comp_data(chunk i)
+ *   peer <blob>              state: an intact file used as the source of Q
  *                            all on ONE context; afterwards the context is read to the end and closed ("-" = no scan)
  * output per case:
  *   S <idx> open=<0|1> steps=<op>:<ret>:<flags>;...  same=<0|1> pos=<fd offset after scans - data offset>
@@ -14,7 +16,7 @@
 #include "drv.h"
 
 typedef struct { blob *disk; char *ops; } scase;
-typedef struct { scase *cases; int n; int *sched; int nsched; } sctx;
+typedef struct { scase *cases; int n; int *sched; int nsched; blob peer; } sctx;
 
 static void run_one(int idx, FILE *out, void *vctx) {
     sctx *c = vctx;
@@ -31,6 +33,8 @@ static void run_one(int idx, FILE *out, void *vctx) {
         return;
     }
     int ns = 0;
+    int pfd = -1;
+    zckCtx *peer = NULL;
     char *ops = strdup(k->ops), *save = NULL;
     for(char *o = strtok_r(ops, ",", &save); o; o = strtok_r(NULL, ",", &save)) {
         long r;
@@ -40,6 +44,21 @@ static void run_one(int idx, FILE *out, void *vctx) {
         case 'F': r = zck_find_valid_chunks(zck); break;
         case 'X': zck_reset_failed_chunks(zck); r = 0; break;
         case 'M': r = zck_missing_chunks(zck) * 1000 + zck_failed_chunks(zck); break;
+        case 'Q':
+            if(!peer) {
+                if(!c->peer.n) die("scan: Q without peer");
+                pfd = tmp_file_with("scp", c->peer.p, c->peer.n);
+                peer = zck_create();
+                if(!zck_init_read(peer, pfd)) die("scan: peer does not open");
+            }
+            r = zck_find_matching_chunks(peer, zck);
+            break;
+        case 'C': case 'S': {
+            zckChunk *ch = zck_get_chunk(zck, atoi(o + 1));
+            char tmp[4096];
+            r = !ch ? -9 : o[0] == 'C' ? zck_get_chunk_data(ch, tmp, sizeof tmp) : zck_get_chunk_comp_data(ch, tmp, sizeof tmp);
+            break;
+        }
         case '-': continue;
         default: die("scan: bad op %s", o);
         }
@@ -58,6 +77,7 @@ static void run_one(int idx, FILE *out, void *vctx) {
     fprintf(out, " pos=%lld", (long long)pos - (long long)zck_get_header_length(zck));
     read_res r = lib_read_ctx(zck, c->sched, c->nsched, k->disk->n * 4 + 65536, false);
     zck_free(&zck);
+    if(peer) { zck_free(&peer); real_close(pfd); }
     blob after = fd_contents(fd);
     fprintf(out, " same=%d", after.n == k->disk->n && (after.n == 0 || memcmp(after.p, k->disk->p, after.n) == 0));
     read_res_print(&r, out, false);
@@ -80,6 +100,7 @@ int cmd_scan(FILE *job, FILE *out) {
         char **t = split_ws(line, &n);
         if(n == 0) { free(t); free(line); continue; }
         if(!strcmp(t[0], "sched")) c.sched = parse_int_list(t[1], &c.nsched);
+        else if(!strcmp(t[0], "peer")) c.peer = blob_arg(t[1]);
         else if(!strcmp(t[0], "disk")) { disk = malloc(sizeof *disk); *disk = blob_arg(t[1]); }
         else if(!strcmp(t[0], "hist")) {
             if(!disk) die("scan: hist before disk");
